@@ -35,7 +35,7 @@ package cross_chain_manager
 //@ func ImportExTransfer
 //@   property C21, C22
 //@   mode abstract
-//@   requires native != nil && native.tx != nil
+//@   requires native != nil && native.tx != nil && config.DefConfig != nil && config.DefConfig.P2PNode != nil
 //@   modifies *
 //@   ghost var src uint64
 //@   ghost var srcRouter uint64
@@ -44,7 +44,7 @@ package cross_chain_manager
 //@   ghost var direct bool = false
 //@   set after "chainID := params.SourceChainID" : src := chainID
 //@   set after "handler, err := GetChainHandler(sideChain.Router)" : srcRouter := sideChain.Router
-//@   set after "err = utils.CheckRouterStartBlock(sideChain.Router, native.GetHeight())" : active := err == nil
+//@   set after "err = utils.CheckRouterStartBlock(sideChain.Router, native.GetHeight())" : active := err == nil && utils.routerActive(sideChain.Router, native.height)
 //@   set after "err = MakeTransaction(native, txParam, chainID)" : made := err == nil
 //@   -- gates on the source chain come before anything is written
 //@   ensures[c21-source-black] old(Store)[common.blackKey(src)] != None ==> r1 != nil && Store == old(Store)
